@@ -122,6 +122,7 @@ def run(ctx: Ctx) -> None:
         return s_
     cb0 = symexec.SymCB(lambda c: None, track0, None, assume0)
     init_env0 = {f'self._preconditioner._{x}': Poly.atom(f'old_{x}') for x in names}
+    init_env0[sp] = Poly.atom(sp)
     symexec.run(step, cb0, init_env0)
     # every block runs unconditionally on every call of step()
     for nme, blk in blocks.items():
